@@ -122,9 +122,9 @@ func (c *Ctx) role(name string) *ssa.Function {
 	case "regions.cp":
 		return c.calleeBySig(c.fn("regions", "(*Index).At"), "([]int)([]int)", 0)
 	case "regions.eventLess":
-		return c.calleeBySig(c.fn("regions", "NewIndex"), "(regions.event,regions.event)(bool)", 1)
+		return c.calleeBySig(c.fn("regions", "NewIndex"), "(regions.event,regions.event)(bool)", 3)
 	case "regions.keys":
-		return c.calleeBySig(c.fn("regions", "NewIndex"), "(map[int]struct{})([]int)", 0)
+		return c.calleeBySig(c.fn("regions", "NewIndex"), "(map[int]struct{})([]int)", 2)
 	case "smtext.singleChar":
 		return c.calleeBySig(c.fn("formats/smtext", "ReadNCBI"), "(string)(byte,error)", 0)
 	case "sam.parseLine":
